@@ -164,6 +164,8 @@ pub struct Case {
     pub opts: Vec<Opt>,
     /// for comparison configs: attribute carrying `key = ..` on the probed field (None = no key)
     pub key_on: Option<Tr>,
+    /// a second attribute of the probed field carrying `key = ..` as well
+    pub key_on2: Option<Tr>,
     /// Default configs: the probed field carries an explicit value `#[default(F1::new())]`
     pub dvalue: bool,
     pub entry: Entry,
@@ -176,7 +178,7 @@ fn bound_arg(o: Opt, n: usize) -> Option<String> {
 }
 
 /// Render attribute + item text for a configuration and an option per slot.
-fn render(cfg: &Config, opts: &[Opt], key_on: Option<Tr>, dvalue: bool) -> (String, String) {
+fn render(cfg: &Config, opts: &[Opt], key_on: Option<Tr>, key_on2: Option<Tr>, dvalue: bool) -> (String, String) {
     let at = |place: Place, kind: &Kind| -> Option<(usize, Opt)> { cfg.slots.iter().position(|s| s.place == place && &s.kind == kind).map(|i| (i, opts[i])) };
     // derive_ex argument list for a placement; `always` = list every derived trait
     let list = |place: Place, always: bool| -> Option<String> {
@@ -209,7 +211,7 @@ fn render(cfg: &Config, opts: &[Opt], key_on: Option<Tr>, dvalue: bool) -> (Stri
             }
             if let Kind::Helper(h) = &s.kind {
                 let b = bound_arg(opts[i], i);
-                let key = if place == Place::Field && key_on.map(|k| k.attr() == h).unwrap_or(false) { Some("key = $.k()".to_string()) } else { None };
+                let key = if place == Place::Field && (key_on.map(|k| k.attr() == h).unwrap_or(false) || key_on2.map(|k| k.attr() == h).unwrap_or(false)) { Some("key = $.k()".to_string()) } else { None };
                 if h == "default" {
                     // on the default variant the marker itself is required
                     let val = if dvalue && place == Place::Field { "F1::new()" } else { "_" };
@@ -276,7 +278,7 @@ pub enum Exp {
     Field(usize),
 }
 
-pub fn ref_bounds(cfg: &Config, opts: &[Opt], key_on: Option<Tr>, dvalue: bool, t: &str) -> BTreeSet<Exp> {
+pub fn ref_bounds(cfg: &Config, opts: &[Opt], key_on: Option<Tr>, key_on2: Option<Tr>, dvalue: bool, t: &str) -> BTreeSet<Exp> {
     let mut out = BTreeSet::new();
     out.insert(Exp::Decl);
     let tr = Tr::from_name(t);
@@ -330,7 +332,10 @@ pub fn ref_bounds(cfg: &Config, opts: &[Opt], key_on: Option<Tr>, dvalue: bool, 
     // the probed field's comparator selection (comparison family only)
     let (cut, probed_used) = match (tr, key_on) {
         (Some(tr), Some(k)) => {
-            let combo = Combo::PLAIN.with(k, Arg::Key);
+            let mut combo = Combo::PLAIN.with(k, Arg::Key);
+            if let Some(k2) = key_on2 {
+                combo = combo.with(k2, Arg::Key);
+            }
             match select(&combo, tr) {
                 Sel::Key(a) | Sel::By(a) => (Some(a), false),
                 _ => (None, true),
@@ -475,12 +480,19 @@ fn gen(ch: &mut Ch, cfgs: &[Config], plan: &Plan) -> Option<Case> {
     // key placement (comparison configs): none, or on one of the recognised helper attributes
     let cmp_helpers: Vec<Tr> = cfg.slots.iter().filter(|s| s.place == Place::Field).filter_map(|s| if let Kind::Helper(h) = &s.kind { Tr::ALL.iter().copied().find(|t| t.attr() == h) } else { None }).collect();
     let mut key_on = None;
+    let mut key_on2 = None;
     if !cmp_helpers.is_empty() && mode == 0 {
         let k = ch.pick(cmp_helpers.len() + 1);
         if k > 0 {
             key_on = Some(cmp_helpers[k - 1]);
             // the combination must be accepted for every derived comparison trait
-            let combo = Combo::PLAIN.with(cmp_helpers[k - 1], Arg::Key);
+            let mut combo = Combo::PLAIN.with(cmp_helpers[k - 1], Arg::Key);
+            // optionally a second, less specific attribute with a key of its own
+            let k2 = ch.pick(cmp_helpers.len() - k + 1);
+            if k2 > 0 {
+                key_on2 = Some(cmp_helpers[k + k2 - 1]);
+                combo = combo.with(cmp_helpers[k + k2 - 1], Arg::Key);
+            }
             for d in &cfg.derived {
                 if let Some(t) = Tr::from_name(d) {
                     if !refmodel::ref_accept(&combo, t) {
@@ -499,7 +511,9 @@ fn gen(ch: &mut Ch, cfgs: &[Config], plan: &Plan) -> Option<Case> {
         // deviation-bounded: choose how many levels are non-absent, then which (increasing
         // positions), then their options - no pruned branches
         let n = cfg.slots.len();
-        let k = ch.pick(plan.max_dev.min(n) + 1);
+        // with two keys on the probed field one level less is varied
+        let max_dev = if key_on2.is_some() { plan.max_dev.saturating_sub(1) } else { plan.max_dev };
+        let k = ch.pick(max_dev.min(n) + 1);
         opts = vec![Opt::Absent; n];
         let mut start = 0usize;
         for j in 0..k {
@@ -529,8 +543,8 @@ fn gen(ch: &mut Ch, cfgs: &[Config], plan: &Plan) -> Option<Case> {
     if mode == 2 && plan.full3.contains(&cfg.name.as_str()) && opts.iter().all(|o| Opt::THREE.contains(o)) {
         return None;
     }
-    let (attr, item) = render(cfg, &opts, key_on, dvalue);
-    Some(Case { cfg: ci, vector: ch.vector(), opts, key_on, dvalue, entry, attr, item })
+    let (attr, item) = render(cfg, &opts, key_on, key_on2, dvalue);
+    Some(Case { cfg: ci, vector: ch.vector(), opts, key_on, key_on2, dvalue, entry, attr, item })
 }
 
 #[derive(Debug)]
@@ -547,7 +561,7 @@ fn evaluate(cfg: &Config, c: &Case, templates: &BTreeMap<String, Vec<String>>) -
     };
     let mut per_trait = Vec::new();
     for (k, d) in cfg.derived.iter().enumerate() {
-        let exp = ref_bounds(cfg, &c.opts, c.key_on, c.dvalue, d);
+        let exp = ref_bounds(cfg, &c.opts, c.key_on, c.key_on2, c.dvalue, d);
         // I1: whether `#[partial_eq(bound(..))]` reaches Eq's where-clause is unspecified
         if d == "Eq" && cfg.slots.iter().enumerate().any(|(i, s)| s.kind == Kind::Helper("partial_eq".into()) && c.opts[i] != Opt::Absent) {
             per_trait.push(Ok(Vec::new()));
@@ -581,6 +595,9 @@ fn describe(cfg: &Config, c: &Case) -> String {
         }
     }
     if let Some(k) = c.key_on {
+        v.push(format!("field:#[{}(key)]", k.attr()));
+    }
+    if let Some(k) = c.key_on2 {
         v.push(format!("field:#[{}(key)]", k.attr()));
     }
     if c.dvalue {
@@ -625,8 +642,9 @@ pub fn run(ctx: &Ctx, rep: &mut Report) {
         let key_on = cs["key_on"].as_str().and_then(|k| Tr::ALL.iter().copied().find(|t| t.attr() == k));
         let entry = if cs["entry"] == "derive" { Entry::Derive } else { Entry::Attr };
         let dvalue = cs["dvalue"].as_bool().unwrap_or(false);
-        let (attr, item) = render(&cfgs[ci], &opts, key_on, dvalue);
-        let c = Case { cfg: ci, vector: vec![], opts, key_on, dvalue, entry, attr, item };
+        let key_on2 = cs["key_on2"].as_str().and_then(|k| Tr::ALL.iter().copied().find(|t| t.attr() == k));
+        let (attr, item) = render(&cfgs[ci], &opts, key_on, key_on2, dvalue);
+        let c = Case { cfg: ci, vector: vec![], opts, key_on, key_on2, dvalue, entry, attr, item };
         let a = format!("{:?}", evaluate(&cfgs[ci], &c, &templates));
         let b = format!("{:?}", evaluate(&cfgs[ci], &c, &templates));
         assert_eq!(a, b, "replay observations differ between two runs");
@@ -664,6 +682,9 @@ pub fn run(ctx: &Ctx, rep: &mut Report) {
             if let Some(k) = c.key_on {
                 a.insert(format!("key_on={}", k.attr()));
             }
+            if let Some(k) = c.key_on2 {
+                a.insert(format!("key_on={}", k.attr()));
+            }
             if c.dvalue {
                 a.insert("default_value_on_field".into());
             }
@@ -674,7 +695,7 @@ pub fn run(ctx: &Ctx, rep: &mut Report) {
                 symptom: "expansion-failed".into(),
                 atoms: mk_atoms(None),
                 what: format!("{}: {}", describe(cfg, c), first_line(m)),
-                detail: json!({"vector": c.vector, "config": cfg.name, "opts": c.opts.iter().map(|o| Opt::ALL.iter().position(|x| x == o).unwrap()).collect::<Vec<_>>(), "key_on": c.key_on.map(|k| k.attr()), "dvalue": c.dvalue, "entry": c.entry.name(), "attr": c.attr, "item": c.item, "observed": m}),
+                detail: json!({"vector": c.vector, "config": cfg.name, "opts": c.opts.iter().map(|o| Opt::ALL.iter().position(|x| x == o).unwrap()).collect::<Vec<_>>(), "key_on": c.key_on.map(|k| k.attr()), "key_on2": c.key_on2.map(|k| k.attr()), "dvalue": c.dvalue, "entry": c.entry.name(), "attr": c.attr, "item": c.item, "observed": m}),
                 standalone: None,
             }),
             Ok(ev) => {
@@ -684,7 +705,7 @@ pub fn run(ctx: &Ctx, rep: &mut Report) {
                             symptom: "trait-not-generated".into(),
                             atoms: mk_atoms(Some(d)),
                             what: format!("{} trait {}: {}", describe(cfg, c), d, first_line(m)),
-                            detail: json!({"vector": c.vector, "config": cfg.name, "opts": c.opts.iter().map(|o| Opt::ALL.iter().position(|x| x == o).unwrap()).collect::<Vec<_>>(), "key_on": c.key_on.map(|k| k.attr()), "dvalue": c.dvalue, "entry": c.entry.name(), "attr": c.attr, "item": c.item, "trait": d, "observed": m}),
+                            detail: json!({"vector": c.vector, "config": cfg.name, "opts": c.opts.iter().map(|o| Opt::ALL.iter().position(|x| x == o).unwrap()).collect::<Vec<_>>(), "key_on": c.key_on.map(|k| k.attr()), "key_on2": c.key_on2.map(|k| k.attr()), "dvalue": c.dvalue, "entry": c.entry.name(), "attr": c.attr, "item": c.item, "trait": d, "observed": m}),
                             standalone: None,
                         }),
                         Ok(v) => {
@@ -697,7 +718,7 @@ pub fn run(ctx: &Ctx, rep: &mut Report) {
                                         symptom: "where-clause-differs-from-priority-rule".into(),
                                         atoms: mk_atoms(Some(d)),
                                         what: format!("{} impl #{} of {}: missing {:?}, unexpected {:?}", describe(cfg, c), n, d, missing, extra),
-                                        detail: json!({"vector": c.vector, "config": cfg.name, "opts": c.opts.iter().map(|o| Opt::ALL.iter().position(|x| x == o).unwrap()).collect::<Vec<_>>(), "key_on": c.key_on.map(|k| k.attr()), "dvalue": c.dvalue, "entry": c.entry.name(), "attr": c.attr, "item": c.item, "trait": d, "impl_index": n, "expected_where": exp, "observed_where": got}),
+                                        detail: json!({"vector": c.vector, "config": cfg.name, "opts": c.opts.iter().map(|o| Opt::ALL.iter().position(|x| x == o).unwrap()).collect::<Vec<_>>(), "key_on": c.key_on.map(|k| k.attr()), "key_on2": c.key_on2.map(|k| k.attr()), "dvalue": c.dvalue, "entry": c.entry.name(), "attr": c.attr, "item": c.item, "trait": d, "impl_index": n, "expected_where": exp, "observed_where": got}),
                                         standalone: None,
                                     });
                                 }
